@@ -12,7 +12,15 @@
 (*       the cell must be exactly TlbSem!Enc(schema, type, value).               *)
 (*  REENC a record decoded from real chain data and encoded again: same hash    *)
 (*       wherever the encoding is unique.                                        *)
-EXTENDS TlbSem, Json
+(* Besides TlbSem!Enc (value -> the one cell) the total decoder TlbDec!Dec       *)
+(* (cell -> the one value) judges: RT - the recorded cell must denote exactly    *)
+(* the recorded value under the reflection schema (also for values holding       *)
+(* non-empty dictionaries, where Enc prescribes no unique cell); DECSRC - the    *)
+(* source cell of real chain data must denote, under the schema transcribed from *)
+(* block.tlb, exactly the value the library decoded (dictionaries included).     *)
+(* <<"JD", line, by>> reports which of the two oracles judged the bits of a line *)
+(* ("enc", "dec", "enc+dec", "none").                                             *)
+EXTENDS TlbDec, Json
 
 Trace == ndJsonDeserialize("trace.ndjson")
 Schema == JsonDeserialize("schema.json")   \* name -> type AST (block.tlb transcription); {} when unused
@@ -22,6 +30,18 @@ VARIABLES l, v
 IsPanic(s) == StrLen(s) >= 5 /\ SubStr(s, 1, 5) = "panic"
 Note(tag) == PrintT(<<"NOTE", l, tag>>) /\ FALSE
 
+JudgedBy(enc, dec) == PrintT(<<"JD", l, IF enc /\ dec THEN "enc+dec" ELSE IF enc THEN "enc" ELSE IF dec THEN "dec" ELSE "none">>)
+IsRefusal(t) == StrLen(t) >= 1 /\ SubStr(t, 1, 1) = "!"
+NoValueSchema(t) == t = "!dictionary without a value schema"
+
+\* the independent decode: the cell `tj` must denote, under schema (S, ty), exactly the value whose canonical text is `ds`.
+\* Result: "skip" (a dictionary whose value type has no schema: not decidable here), "ok", or the note to raise.
+DecVerdict(S, ty, tj, ds) ==
+  LET t == DecText(S, ty, TreeOfJson(tj)) IN
+  IF NoValueSchema(t) THEN "skip"
+  ELSE IF IsRefusal(t) THEN "dec-refuses-cell"
+  ELSE IF t = ds THEN "ok" ELSE "dec-value-differs"
+
 JudgeRT(e) ==
   IF IsPanic(e.enc) \/ IsPanic(e.dec) \/ IsPanic(e.enc2) THEN Note("panic")
   ELSE IF e.enc # "ok" THEN TRUE                               \* refused with an error: allowed
@@ -30,17 +50,27 @@ JudgeRT(e) ==
   ELSE IF e.enc2 # "ok" THEN Note("reencode-failed")
   ELSE IF e.tree2 # e.tree THEN Note("reencode-differs")
   ELSE IF ~e.hasast THEN TRUE
-  ELSE LET r == Enc(<<>>, e.ast, e.v) IN
-       IF ~r.ok THEN TRUE                                      \* no unique encoding (dictionary inside) or outside the cell limits
-       ELSE TreeText(r.c) = e.tree \/ Note("bits-differ")
+  ELSE LET r == Enc(<<>>, e.ast, e.v)
+           \* no unique encoding (dictionary inside) or outside the cell limits: Enc does not judge
+           encOK == ~r.ok \/ TreeText(r.c) = e.tree \/ Note("bits-differ")
+           withDec == "tj" \in DOMAIN e /\ "ds" \in DOMAIN e
+           dv == IF withDec THEN DecVerdict(<<>>, e.ast, e.tj, e.ds) ELSE "skip"
+       IN /\ encOK
+          /\ dv \in {"skip", "ok"} \/ Note(dv)
+          /\ JudgedBy(r.ok, dv = "ok")
 
 JudgeENC(e) ==
-  LET r == Enc(Schema, Schema[e.type], e.v) IN
+  LET r == Enc(Schema, Schema[e.type], e.v)
+      withDec == e.enc = "ok" /\ "tj" \in DOMAIN e /\ "ds" \in DOMAIN e
+      dv == IF withDec THEN DecVerdict(Schema, Schema[e.type], e.tj, e.ds) ELSE "skip"
+      \* whatever the library encoded must, read back under the schema, be the value it was given (dictionaries included)
+      decOK == (dv \in {"skip", "ok"} \/ Note(dv)) /\ JudgedBy(r.ok, dv = "ok")
+  IN
   IF IsPanic(e.enc) THEN Note("panic")
-  ELSE IF ~r.ok /\ r.err = "non-empty dictionary: encoding not unique" THEN TRUE
+  ELSE IF ~r.ok /\ r.err = "non-empty dictionary: encoding not unique" THEN decOK
   ELSE IF ~r.ok THEN (e.enc # "ok" \/ Note("encoded-out-of-domain"))
   ELSE IF e.enc # "ok" THEN Note("refused-in-domain")
-  ELSE TreeText(r.c) = e.tree \/ Note("bits-differ")
+  ELSE (TreeText(r.c) = e.tree \/ Note("bits-differ")) /\ decOK
 
 JudgeREENC(e) ==
   IF IsPanic(e.dec) \/ IsPanic(e.enc) THEN Note("panic")
@@ -51,19 +81,39 @@ JudgeREENC(e) ==
 \* DECSRC: a record decoded from a cell of real chain data. Where the independent schema gives the decoded value a unique
 \* encoding, that encoding must be the source cell itself (the decoder read the bits the schema prescribes), and the
 \* library's own re-encoding must reproduce it.
+\* Where Enc gives no unique cell (a non-empty dictionary inside: out-messages, extra currencies, libraries) or in addition to
+\* it, the source cell is read by the specification's own decoder under the same schema and must denote the decoded value.
+\* `noenc` marks record types the library decodes but declines to encode (InMsg / OutMsg descriptors ...): only the
+\* reading is judged there.
 JudgeDECSRC(e) ==
   IF IsPanic(e.dec) \/ IsPanic(e.enc) THEN Note("panic")
   ELSE IF e.dec # "ok" THEN Note("decode-failed")
-  ELSE LET r == Enc(Schema, Schema[e.type], e.v) IN
-       IF ~r.ok THEN TRUE
-       ELSE IF TreeText(r.c) # e.tree THEN Note("decoded-value-does-not-denote-source")
-       ELSE IF e.enc # "ok" THEN Note("reencode-failed")
-       ELSE e.tree2 = e.tree \/ Note("reencode-differs")
+  ELSE LET withDec == "tj" \in DOMAIN e /\ "ds" \in DOMAIN e
+           t == IF withDec THEN DecText(Schema, Schema[e.type], TreeOfJson(e.tj)) ELSE "!dictionary without a value schema"
+           \* a record taken from a Merkle update may lack part of its DATA (a pruned branch where fields or dictionary nodes are
+           \* stored): it does not hold a value of its type, and nothing can be compared. Pruned branches in ^Cell positions are
+           \* cells like any other: such a record is complete and is judged in full.
+           incomplete == "exotic" \in DOMAIN e /\ e.exotic /\ t \in {"!exotic cell read as data", "!dictionary: node:exotic"}
+           r == Enc(Schema, Schema[e.type], e.v)
+           noenc == "noenc" \in DOMAIN e /\ e.noenc
+           encOK == IF ~r.ok THEN TRUE
+                    ELSE IF TreeText(r.c) # e.tree THEN Note("decoded-value-does-not-denote-source")
+                    ELSE IF noenc THEN TRUE
+                    ELSE IF e.enc # "ok" THEN Note("reencode-failed")
+                    ELSE e.tree2 = e.tree \/ Note("reencode-differs")
+           dv == IF NoValueSchema(t) THEN "skip"
+                 ELSE IF IsRefusal(t) THEN "source-is-not-a-value-of-the-schema"
+                 ELSE IF t = e.ds THEN "ok" ELSE "decoded-value-is-not-what-the-source-denotes"
+       IN IF incomplete THEN JudgedBy(FALSE, FALSE)
+          ELSE /\ encOK
+               /\ dv \in {"skip", "ok"} \/ Note(dv)
+               /\ JudgedBy(r.ok, dv = "ok")
 
 Judge(e) == CASE e.k = "RT" -> JudgeRT(e)
               [] e.k = "DECSRC" -> JudgeDECSRC(e)
               [] e.k = "ENC" -> JudgeENC(e)
               [] e.k = "REENC" -> JudgeREENC(e)
+              [] e.k = "TooBig" -> TRUE          \* a record the driver counted but did not write out (unfolds beyond its size bound)
               [] OTHER -> FALSE
 
 Init == l \in 1..N /\ v = "todo"
